@@ -636,7 +636,7 @@ def contracts_c02(hints):
                 return Contract(ensures=inv_ens, tags=('identity',), tail='if det@ != 0real { %s }' % hints[('inv', n)])
             cl = {0: dict(params='i: isize, j: isize', ret='r: Sc', requires=['0 <= i < 4', '0 <= j < 4'],
                           ensures=['r == m4_cf(t, i as int, j as int, inv_det)'],
-                          pre='let ij: isize = (i + j) as isize; assert((ij & 1 == 1) == (ij % 2 == 1)) by(bit_vector) requires 0 <= ij < 8;')}
+                          pre='let ij: isize = ((i as isize) + (j as isize)) as isize; assert((ij & 1 == 1) == (ij % 2 == 1)) by(bit_vector) requires 0 <= ij < 8;')}
             return Contract(ensures=inv_ens, tags=('identity',), closures=cl, tail='if det@ != 0real { %s }' % hints[('inv', n)])
         if tn == 'Transform' and name == 'inverse_transform':
             return Contract(ensures=inv_ens)
